@@ -152,8 +152,12 @@ func panicSig(p string) string {
 }
 
 func deadlockSig(d string) string {
+	// signature = where the FOREGROUND threads are stuck (daemons are always parked somewhere)
 	var sites []string
 	for _, l := range strings.Split(d, "\n") {
+		if strings.HasPrefix(strings.TrimSpace(l), "bg thread") {
+			continue
+		}
 		if i := strings.LastIndex(l, "@"); i >= 0 {
 			sites = append(sites, l[i+1:])
 		}
